@@ -41,7 +41,7 @@ M0(tr) == [cfg |-> tr.cfg, s |-> << >>, hb |-> 0, maxSid |-> 0,
            grantC |-> 65535, sentC |-> 0, srvGrantC |-> 65535, peerSentC |-> 0,
            goaways |-> <<>>, closed |-> FALSE, connErr |-> FALSE, peerGone |-> FALSE,
            cur |-> NoFrame, hasCur |-> FALSE, multi |-> FALSE, allowed |-> {}, obs |-> NoObs,
-           disp |-> {}, setSent |-> 0, ackRecv |-> 0, closes |-> 0, settledMode |-> FALSE,
+           mustErr |-> FALSE, disp |-> {}, setSent |-> 0, ackRecv |-> 0, closes |-> 0, settledMode |-> FALSE,
            bad |-> {}]
 
 MaxConc(mm) == IF mm.cfg.maxConc > 0 THEN mm.cfg.maxConc ELSE 1024
@@ -137,6 +137,9 @@ Transition(mm, f, errOnSid, connErrNow) ==
                 !.closes = @ + (IF closedNow THEN 1 ELSE 0)]
 
 -----
+(* Ledgers: grant / grantC / srvGrant / srvGrantC hold the REMAINING window (they may go negative after a
+   SETTINGS decrease); sent / sentC / flowSent / peerSentC are kept at 0 so that `grant - sent` reads as before.
+   Cumulative totals would leave TLC's 32-bit integers on long transfers. *)
 (* send: the peer put frame f on the wire.                                   *)
 OnSend(mm0, f) ==
   LET mm == IF mm0.hasCur THEN [Transition(mm0, mm0.cur, FALSE, FALSE) EXCEPT !.multi = TRUE] ELSE mm0
@@ -149,7 +152,7 @@ OnSend(mm0, f) ==
              ELSE IF f.ty = T_CONT /\ f.sid = mm.hb /\ f.eh THEN 0
              ELSE mm.hb
       \* the peer's flow-control spending (DATA counts with its padding)
-      r1 == IF f.ty = T_DATA THEN [r EXCEPT !.flowSent = @ + f.len, !.body = @ + f.dlen] ELSE r
+      r1 == IF f.ty = T_DATA THEN [r EXCEPT !.srvGrant = @ - f.len, !.body = @ + f.dlen] ELSE r
       r2 == IF f.ty = T_HEADERS /\ f.first
             THEN [r1 EXCEPT !.pblk = f.fields, !.pblkES = f.es, !.pblkSz = f.hsz, !.blkOpen = ~f.eh]
             ELSE IF f.ty = T_CONT /\ f.eh THEN [r1 EXCEPT !.blkOpen = FALSE] ELSE r1
@@ -157,7 +160,9 @@ OnSend(mm0, f) ==
       r3 == IF f.ty = T_WU /\ f.sid # 0 /\ f.len = 4 /\ ~Overflows(r2.grant - r2.sent, f.inc)
             THEN [r2 EXCEPT !.grant = @ + f.inc] ELSE r2
       m1 == [mm EXCEPT !.cur = f, !.hasCur = TRUE, !.allowed = al, !.obs = NoObs, !.hb = hb1,
-                       !.peerSentC = @ + (IF f.ty = T_DATA THEN f.len ELSE 0),
+                       \* the only permitted reactions to this frame are connection errors
+                       !.mustErr = @ \/ (al # {} /\ \A x \in al : x.k = "cerr"),
+                       !.srvGrantC = @ - (IF f.ty = T_DATA THEN f.len ELSE 0),
                        !.setSent = @ + (IF f.ty = T_SETTINGS /\ ~f.ack /\ f.sid = 0 /\ f.len % 6 = 0 THEN 1 ELSE 0),
                        !.grantC = @ + (IF f.ty = T_WU /\ f.sid = 0 /\ f.len = 4 /\ ~Overflows(mm.grantC - mm.sentC, f.inc) THEN f.inc ELSE 0),
                        !.peerMFS = IF f.ty = T_SETTINGS /\ ~f.ack /\ f.mfs >= 0 /\ f.sbad = 0 THEN f.mfs ELSE @]
@@ -166,7 +171,8 @@ OnSend(mm0, f) ==
       m3 == IF f.ty = T_SETTINGS /\ ~f.ack /\ f.iw >= 0 /\ f.sbad = 0
             THEN [m2 EXCEPT !.peerIW = f.iw,
                             !.s = [sid \in DOMAIN m2.s |->
-                                     IF m2.s[sid].q \in {"open", "hcr"}
+                                     IF m2.s[sid].q \in {"open", "hcr"} /\ ~(f.iw > m2.peerIW /\ Overflows(m2.s[sid].grant - m2.s[sid].sent, f.iw - m2.peerIW))
+                                        /\ ~(f.iw > m2.peerIW /\ m2.s[sid].grant > 0 /\ f.iw - m2.peerIW > MaxWin - m2.s[sid].grant)
                                      THEN [m2.s[sid] EXCEPT !.grant = @ + (f.iw - m2.peerIW)] ELSE m2.s[sid]]]
             ELSE m2
   IN m3
@@ -176,10 +182,10 @@ OnSend(mm0, f) ==
 OnRecv(mm, f) ==
   LET r == St(mm, f.sid) IN
   IF f.ty = T_DATA THEN
-     LET r1 == [r EXCEPT !.sent = @ + f.len, !.rb = @ + f.dlen, !.res = @ + (IF f.es THEN 1 ELSE 0)]
-         m1 == [Put(mm, f.sid, r1) EXCEPT !.sentC = @ + f.len]
-         c1 == FlagIf(m1, f.len > 0 /\ r1.sent > r1.grant, "C06:stream-window-exceeded")
-         c2 == FlagIf(c1, f.len > 0 /\ m1.sentC > m1.grantC, "C06:conn-window-exceeded")
+     LET r1 == [r EXCEPT !.grant = @ - f.len, !.rb = @ + f.dlen, !.res = @ + (IF f.es THEN 1 ELSE 0)]
+         m1 == [Put(mm, f.sid, r1) EXCEPT !.grantC = @ - f.len]
+         c1 == FlagIf(m1, f.len > 0 /\ r1.grant < 0, "C06:stream-window-exceeded")
+         c2 == FlagIf(c1, f.len > 0 /\ m1.grantC < 0, "C06:conn-window-exceeded")
          c3 == FlagIf(c2, f.len > mm.peerMFS, "C06:data-frame-over-max-frame-size")
          c4 == FlagIf(c3, r.rh = 0, "C01:data-before-headers")
          c5 == FlagIf(c4, r.res > 0, "C01:data-after-end-stream")
@@ -197,14 +203,22 @@ OnRecv(mm, f) ==
          m2 == IF is4 THEN [m1 EXCEPT !.obs.r4xx = @ \cup {f.sid}] ELSE m1
          c1 == FlagIf(m2, r.rh > 0, "C01:response-headers-twice")
          c2 == FlagIf(c1, f.hbad, "C01:response-block-undecodable")
-         c3 == FlagIf(c2, ~f.hbad /\ ~WellFormedResponse(f.fields), "C01:response-malformed")
-         c4 == FlagIf(c3, ~f.hbad /\ ~is4 /\ st # DigitsOf(r.resp.status), "C01:status-differs")
-         c5 == FlagIf(c4, ~f.hbad /\ ~is4 /\ ~SubFields(r.resp.hdrs, Regular(f.fields)), "C01:response-field-lost")
+         c3 == FlagIf(c2, f.eh /\ ~f.hbad /\ ~WellFormedResponse(f.fields), "C01:response-malformed")
+         c4 == FlagIf(c3, f.eh /\ ~f.hbad /\ ~is4 /\ st # DigitsOf(r.resp.status), "C01:status-differs")
+         c5 == FlagIf(c4, f.eh /\ ~f.hbad /\ ~is4 /\ ~SubFields(r.resp.hdrs, Regular(f.fields)), "C01:response-field-lost")
          c6 == FlagIf(c5, f.len > mm.peerMFS, "C18:headers-frame-over-max-frame-size")
          c7 == FlagIf(c6, f.es /\ ~is4 /\ r.resp.n > 0, "C01:response-body-truncated")
-         c8 == FlagIf(c7, is4 /\ ~f.hbad /\ (Len(st) # 3 \/ st[1] \notin {52, 53}), "C20:unsolicited-non-error-response")
-         c9 == FlagIf(c8, ~f.eh, "C01:response-headers-without-end-headers")
-     IN c9
+         c8 == FlagIf(c7, f.eh /\ is4 /\ ~f.hbad /\ (Len(st) # 3 \/ st[1] \notin {52, 53}), "C20:unsolicited-non-error-response")
+     IN c8
+  ELSE IF f.ty = T_CONT THEN
+     LET c1 == FlagIf(mm, f.len > mm.peerMFS, "C18:continuation-frame-over-max-frame-size")
+         c2 == FlagIf(c1, f.hbad, "C01:response-block-undecodable")
+         \* the block's END_HEADERS arrives here: the fields x/net decoded belong to the response
+         r1 == IF f.eh /\ ~f.hbad THEN [r EXCEPT !.rfields = f.fields] ELSE r
+         st == ValueOf(f.fields, B_status)
+         c3 == FlagIf(c2, f.eh /\ ~f.hbad /\ r.he = 1 /\ st # DigitsOf(r.resp.status), "C01:status-differs")
+         c4 == FlagIf(c3, f.eh /\ ~f.hbad /\ r.he = 1 /\ ~SubFields(r.resp.hdrs, Regular(f.fields)), "C01:response-field-lost")
+     IN Put(c4, f.sid, r1)
   ELSE IF f.ty = T_RST THEN
      LET r1 == [r EXCEPT !.rstByUs = TRUE, !.errSeen = TRUE]
          m1 == [Put(mm, f.sid, r1) EXCEPT !.obs.rst = @ \cup {<<f.sid, f.code>>}]
@@ -271,7 +285,9 @@ JudgeDispatch(mm, sid) ==
       c1 == FlagIf(mm, fresh /\ ~complete, "C08:dispatched-before-request-complete")
       c2 == FlagIf(c1, fresh /\ complete /\ ~wf, "C20:malformed-request-dispatched")
       c3 == FlagIf(c2, complete /\ wf /\ underLimits /\ noErr /\ r.hs = 0 /\ mm.goaways = <<>>, "C01:well-formed-request-not-dispatched")
-      c4 == FlagIf(c3, complete /\ ~wf /\ r.hs = 0 /\ ~r.errSeen /\ ~r.r4 /\ ~mm.connErr /\ ~mm.closed, "C20:malformed-request-not-refused")
+      c3b == FlagIf(c3, complete /\ wf /\ underLimits /\ r.hs = 0 /\ (r.errSeen \/ r.r4) /\ ~r.refused /\ ~r.rstByPeer /\ ~mm.connErr /\ ~mm.closed /\ mm.goaways = <<>>,
+                    "C20:well-formed-request-refused")
+      c4 == FlagIf(c3b, complete /\ ~wf /\ r.hs = 0 /\ ~r.errSeen /\ ~r.r4 /\ ~mm.connErr /\ ~mm.closed, "C20:malformed-request-not-refused")
       c5 == FlagIf(c4, fresh /\ r.seen.method # ValueOf(r.req, B_method), "C01:method-differs")
       c6 == FlagIf(c5, fresh /\ r.seen.path # ValueOf(r.req, B_path), "C01:path-differs")
       c7 == FlagIf(c6, fresh /\ Count(r.req, B_authority) = 1 /\ r.seen.host # ValueOf(r.req, B_authority), "C01:authority-differs")
@@ -307,7 +323,8 @@ Progress(mm, e) ==
 
 OnQ(mm, e) ==
   LET f == mm.cur
-      judged == mm.hasCur /\ ~mm.multi /\ ~mm.connErrBefore
+      \* no verdict on the reaction while the peer is not reading (settled): the server cannot show one
+      judged == mm.hasCur /\ ~mm.multi /\ ~mm.connErrBefore /\ ~e.settled
       obs == [rst |-> mm.obs.rst, goaway |-> mm.obs.goaway, closed |-> mm.obs.closed /\ ~mm.peerGone]
       al == mm.allowed
       rOK == ReactionOK(f, obs, al)
@@ -355,7 +372,7 @@ OnRet(mm, e) ==
       \* once the peer has seen the connection end only a handler that is still running counts as unfinished
       unfinished == {sid \in DOMAIN mm.s : sid <= last /\
                         ((mm.s[sid].hs >= 1 /\ mm.s[sid].he = 0) \/ (~mm.closed /\ mm.s[sid].q \in {"open", "hcr"}))}
-  IN FlagIf(mm, ~e.intime /\ (mm.connErr \/ mm.closed) /\ unfinished = {},
+  IN FlagIf(mm, ~e.intime /\ (mm.connErr \/ mm.closed \/ mm.mustErr) /\ unfinished = {},
             "C10:serveconn-did-not-return-after-connection-error " \o e.err)
 
 Step(mm, e) ==
@@ -369,6 +386,7 @@ Step(mm, e) ==
     [] e.k = "end"   -> OnEnd(mm, e)
     [] e.k = "ret"   -> OnRet(mm, e)
     [] e.k = "runaway" -> Flag(Flag(mm, "C06:runaway-output"), "C01:runaway-output")
+    [] e.k = "peerproto" -> Flag(mm, "C14:zero-increment (frame rejected by the peer's framer, code=" \o ToString(e.code) \o ")")
     [] e.k = "qtimeout" -> Flag(mm, "X:quiescence-timeout")
     [] e.k = "driverpanic" -> Flag(mm, "X:driver-panic")
     [] OTHER -> mm
